@@ -113,6 +113,9 @@ def scenario(params, ch):
     try:
         w.run_until_connected()
         w.run(2)
+        if "wrap" in opts:
+            w.run(4)
+            w.preset_near_wrap()
         data = payload(1, size)
         w.fates = list(fates)
         if other == "last-in-datagram":
@@ -145,6 +148,13 @@ def scenario(params, ch):
             # unrelated traffic in the same and the opposite direction
             app_send(w, mon, sender, payload(2, 30), "none")
             app_send(w, mon, "s" if sender == "c" else "c", payload(3, 30), "best")
+        stall = next((float(o[5:]) for o in opts if o.startswith("stall")), None)
+        if stall:
+            # the owner transmits once and then does not call update for longer than the message timeout (a blocking
+            # load, a slow handler.update): the lone transmission times out while nothing was resent yet
+            sc_ = w.clients[0].conn if sender == "c" else w.server_conn(0)
+            w.run(12, lambda w_: not sc_.outgoing_messages)     # until everything has been transmitted exactly once
+            w.tick(dt=stall)
         if blackout and blackout[0] == "hole":
             # an MTU black hole in the data direction: datagrams above the threshold are lost for ``ticks`` ticks while
             # keep-alives, acks and small fragments keep arriving (the link is never silent)
@@ -258,6 +268,21 @@ def params_list(tier):
                     if tier == "quick" and (b[2] != 200 or mtu != 1500):
                         continue
                     out.append((api, size, mtu, ("drop", "delay8"), b, "frag", "cs", 1, 10))
+    # an owner stall longer than the message timeout right after the first transmission
+    for api in APIS:
+        for size in (0, 40, 1434, 1435, 2500):
+            for o in (("cs|stall1.5",) if tier == "quick" else ("cs|stall1.5", "cs|stall1.05", "sc|stall3.0")):
+                if tier == "quick" and api in ("c.send(retry=-1)", "s.send(RETRY_ON_TIMEOUT)") and size not in (40, 2500):
+                    continue
+                out.append((api, size, 1500, ("drop",), None, False, o, 1, 4))
+    # every counter (datagram, message, fragment) a few numbers below the 16-bit wrap
+    for api in ("c.send_guaranteed", "s.send_guaranteed"):
+        for mtu, size in ((1500, 40), (1500, 2500), (1500, 1434)):
+            for b in (None, ("s2c", 0, 13), ("c2s", 3, 160), ("both", 1, 77)):
+                for other in ((False, "burst") if tier == "quick" else (False, True, "burst", "frag")):
+                    if other == "frag" and size < 1435:
+                        continue
+                    out.append((api, size, mtu, fates if other is False else ("drop",), b, other, "cs|wrap", 1, 8))
     # selective loss by size (the large fragment of a message is lost for longer than the receiver-side expiry of
     # 1 + n/2 s, the small one arrives at once), then healed
     for api in ("c.send_guaranteed", "s.send_guaranteed"):
@@ -279,8 +304,8 @@ def run(tier, seed):
         plist = plist[k:] + plist[:k]
     sizes_part = [p for p in plist if p[3] == ("drop",)]
     loss_part = [p for p in plist if p[3] != ("drop",)]
-    st1 = explore.explore_all("checks.c05", "scenario", sizes_part, 1, time_budget=(200 if tier == "quick" else 1500))
-    st2 = explore.explore_all("checks.c05", "scenario", loss_part, 2, time_budget=(200 if tier == "quick" else 1500))
+    st1 = explore.explore_all("checks.c05", "scenario", sizes_part, 1, time_budget=(1000 if tier == "quick" else 3000))
+    st2 = explore.explore_all("checks.c05", "scenario", loss_part, 2, time_budget=(1000 if tier == "quick" else 3000))
     b3 = None
     sts = [st1, st2]
     if tier == "thorough":
